@@ -124,9 +124,12 @@ def run(ctx) -> Report:
                 ids = list(range(n))
                 rng.shuffle(ids)
                 avail = set(rng.sample(range(n), rng.randrange(0, n + 1)))
-                parts = [(0 if p in avail else 5, p, (1 if p in avail else -1), [1], [1]) for p in ids]
-                md.update_metadata(MetadataResponse_v1(brokers=[(1, "h", 9092, None)], controller_id=1,
-                                                       topics=[(0, "t", False, parts)]))
+                # leaders are spread over broker ids 0..2 (id 0 is a perfectly good leader), or all on one broker
+                one = rng.choice([None, None, 0, 1])
+                parts = [(0 if p in avail else 5, p, ((rng.randrange(3) if one is None else one) if p in avail else -1), [1], [1])
+                         for p in ids]
+                md.update_metadata(MetadataResponse_v1(brokers=[(0, "h0", 9092, None), (1, "h1", 9092, None), (2, "h2", 9092, None)],
+                                                       controller_id=1, topics=[(0, "t", False, parts)]))
                 k = bytes(rng.randrange(256) for _ in range(rng.randrange(0, 24)))
                 got = prod._partition("t", None, k, b"v", k, b"v")
                 out.append({"kind": "keyed", "key": list(k), "all": list(range(n)), "avail": sorted(avail), "got": got})
